@@ -8,7 +8,9 @@ Transcribes, from `src/twisted/logger/_format.py`:
 from `src/twisted/logger/_flatten.py`: `flatFormat`;
 from CPython `string.Formatter`: `_vformat`, `get_field`, `convert_field`, `format_field`
 (order of operations, laziness of the parser, recursion depth of nested specs);
-from `twisted.python.reflect`: `safe_repr`, `safe_str` (they swallow `BaseException`).
+from `twisted.python.reflect`: `safe_repr`, `safe_str` (they swallow `BaseException`);
+from `src/twisted/python/log.py` (namespace `Legacy`, at the end): `textFromEventDict`, `_safeFormat`,
+with CPython's `str % dict` / `bytes % dict` loop.
 
 Everything the code does *with a value supplied by the event* (`str`, `repr`, `format`,
 `getattr`, `[]`, call, `.getTraceback()`, the `formatTime` callable) is an **oracle call**: a
@@ -17,7 +19,8 @@ hostile object answers it by popping the next `Outcome` from a tape — return a
 `BaseException`-only classes, including exceptions whose own `str()` raises).  The tape is
 universally quantified in the theorems, so every stateful/adversarial behaviour of event
 values is covered.  `try/except` blocks are transcribed with the classes they catch (after the C55 repair every
-guard in this module is `except BaseException`).
+guard in `_format.py` is `except BaseException`; the legacy `_safeFormat` has `except KeyboardInterrupt: raise`
+before its `except BaseException`, transcribed as `tryAllButKI`).
 The trace records the kinds of oracle calls in order; the tie compares it with the calls
 the real code makes on real hostile objects.
 
@@ -619,5 +622,223 @@ def formatEventAsClassicLogText (ev : Event) (fn : TimeFn) : M (Option Text) := 
   let eventText ← eventAsText ev ⟨true, true, true⟩ fn
   if eventText.isEmpty then ret none
   else ret (some (indentNewlines eventText ++ ['\n']))
+
+/-! ### legacy `twisted.python.log`: `textFromEventDict`, `_safeFormat`
+
+Transcribes, from `src/twisted/python/log.py`: `textFromEventDict`, `_safeFormat`; from CPython
+`PyUnicode_Format` / `_PyBytes_FormatEx`: the loop of `fmtString % fmtDict` with a dict argument
+(key lookup before the argument is fetched, `getnextarg` giving the whole dict to the first key-less
+item and "not enough arguments" afterwards, conversions `s`/`r`/`a`, number conversions, unsupported
+characters, a trailing lone `%`); from `twisted.python.reflect`: `safe_str`.
+
+Truthiness (`if not edm`, `eventDict["isError"]`, `if why`) is that of genuine values: `None` and
+`""` are false, a hostile object is true (a plain object; `__bool__`/`__len__` are not oracle calls). -/
+namespace Legacy
+
+/-- conversion character of one `%` item -/
+inductive PConv
+  | s | r | a          -- `str` / `repr` / `ascii` of the argument
+  | num                -- `d i u x o e f g`: a real number is required → TypeError for None / str / plain objects / dict
+  | bad                -- unsupported format character → ValueError (after the argument was fetched)
+  deriving DecidableEq, Repr, Inhabited
+
+/-- one item of a `%`-format string, as `PyUnicode_Format` reads it -/
+inductive PSeg
+  | lit (t : Text)                                  -- literal text (`%%` is a literal `%`)
+  | keyed (k : String) (width : Nat) (c : PConv)    -- `%(k)<width>c`
+  | pos (width : Nat) (c : PConv)                   -- `%<width>c`: the next positional argument
+  | incomplete                                      -- a trailing lone `%` / unclosed `%(`: ValueError
+  deriving DecidableEq, Repr, Inhabited
+
+/-- `eventDict["format"]` -/
+inductive LFormat
+  | absent
+  | str (segs : List PSeg)
+  | bytes (segs : List PSeg)       -- a bytes `%`-format
+  | other (v : Val)                -- `None` / a hostile object: `v % dict` is TypeError (no `__mod__`)
+  deriving DecidableEq, Repr, Inhabited
+
+/-- A legacy event dict.  Dict order: message, isError, format, failure, why, extras….
+    `message` is the (possibly empty) tuple; `Option Val`: `none` = key absent. -/
+structure Event where
+  message : List Val
+  isError : Bool
+  format : LFormat
+  failure : Option Val
+  why : Option Val
+  extras : List (String × Val)
+  deriving Repr, Inhabited
+
+/-- `eventDict[k]` for the keys a format string may name (not the three structural keys) -/
+def Event.lookup (ev : Event) (k : String) : Option Val :=
+  if k = "failure" then ev.failure
+  else if k = "why" then ev.why
+  else (ev.extras.find? (·.1 = k)).map (·.2)
+
+/-- the values of the dict whose `repr` can consult the tape, in dict order -/
+def Event.values (ev : Event) : List Val :=
+  (match ev.format with
+    | .other v => [v]
+    | _ => []) ++
+  [ev.failure, ev.why].filterMap id ++ ev.extras.map (·.2)
+
+def dictMark : Text := [Char.ofNat 0xE004]        -- `repr(eventDict)` when every value's repr works
+def invalidMark : Text := [Char.ofNat 0xE005]     -- "Invalid format string or unformattable object in log message: %r, %s"
+def lostFmtMark : Text := [Char.ofNat 0xE006]     -- "UNFORMATTABLE OBJECT WRITTEN TO LOG with fmt %r, MESSAGE LOST"
+def pathological : Text :=
+  "PATHOLOGICAL ERROR IN BOTH FORMAT STRING AND MESSAGE DETAILS, MESSAGE LOST".toList
+def unhandled : Text := "Unhandled Error".toList
+def unableLegacyTb : Text := "(unable to obtain traceback): ".toList
+
+/-- `reflect.safe_str(v)`: `str(v)`, or a description of the failure (opaque marker) -/
+def safeStrVal (v : Val) : M Text :=
+  tryAll (pyStr v) (fun _ => ret safeStrMark)
+
+/-- `map(reflect.safe_str, edm)` -/
+def safeStrAll : List Val → M (List Text)
+  | [] => ret []
+  | v :: rest => do
+    let t ← safeStrVal v
+    let ts ← safeStrAll rest
+    ret (t :: ts)
+
+/-- `" ".join(texts)` -/
+def joinSpace : List Text → Text
+  | [] => []
+  | [t] => t
+  | t :: rest => t ++ ' ' :: joinSpace rest
+
+/-- right-justify to `width` (the default alignment of `%`) -/
+def padLeft (w : Nat) (t : Text) : Text := List.replicate (w - t.length) ' ' ++ t
+
+/-- format one fetched argument; `arg = none` is the whole event dict -/
+def argText (ev : Event) (c : PConv) : Option Val → M Text
+  | some v =>
+    match c with
+    | .s => pyStr v
+    | .r => pyRepr v
+    | .a => do let t ← pyRepr v; ret (asciiEscape t)
+    | .num => raise (plainExc .typeError)
+    | .bad => raise (plainExc .valueError)
+  | none =>
+    match c with
+    | .s | .r => do reprAll ev.values; ret dictMark
+    | .a => do reprAll ev.values; ret (asciiEscape dictMark)
+    | .num => raise (plainExc .typeError)
+    | .bad => raise (plainExc .valueError)
+
+/-- the loop of `PyUnicode_Format(fmt, dict)`; `avail`: `getnextarg` has not been called since the
+    start (a key-less item then receives the whole dict; afterwards "not enough arguments") -/
+def percentLoop (ev : Event) : List PSeg → Bool → M Text
+  | [], _ => ret []
+  | .lit t :: rest, avail => do
+    let r ← percentLoop ev rest avail
+    ret (t ++ r)
+  | .keyed k w c :: rest, _ =>
+    match ev.lookup k with
+    | none => raise (plainExc .keyError)
+    | some v => do
+      let t ← argText ev c (some v)
+      let r ← percentLoop ev rest false
+      ret (padLeft w t ++ r)
+  | .pos w c :: rest, avail =>
+    if avail then do
+      let t ← argText ev c none
+      let r ← percentLoop ev rest false
+      ret (padLeft w t ++ r)
+    else raise (plainExc .typeError)
+  | .incomplete :: _, _ => raise (plainExc .valueError)
+
+/-- the loop of `_PyBytes_FormatEx(fmt, dict)`: keys are looked up as bytes (never present in a
+    dict with str keys); `%s`/`%b` need a bytes-like argument; `%r`/`%a` are `ascii(arg)` -/
+def bytesLoop (ev : Event) : List PSeg → Bool → M Unit
+  | [], _ => ret ()
+  | .lit _ :: rest, avail => bytesLoop ev rest avail
+  | .keyed _ _ _ :: _, _ => raise (plainExc .keyError)
+  | .pos _ c :: rest, avail =>
+    if avail then
+      match c with
+      | .r | .a => do reprAll ev.values; bytesLoop ev rest false
+      | .s | .num => raise (plainExc .typeError)
+      | .bad => raise (plainExc .valueError)
+    else raise (plainExc .typeError)
+  | .incomplete :: _, _ => raise (plainExc .valueError)
+
+/-- `text = fmtString % fmtDict` followed by the "is it text" test (body of the `try`) -/
+def percentFormat (ev : Event) : M Text :=
+  match ev.format with
+  | .str segs => percentLoop ev segs true
+  | .bytes segs => do
+    bytesLoop ev segs true
+    raise (plainExc .typeError)           -- the result is bytes: "format produced bytes, not str"
+  | .other _ => raise (plainExc .typeError)   -- unsupported operand type(s) for %
+  | .absent => raise (plainExc .keyError)     -- not reached: `"format" in eventDict` was tested
+
+/-- `repr(fmtString)` -/
+def reprFormat (ev : Event) : M Unit :=
+  match ev.format with
+  | .other v => do let _ ← pyRepr v; ret ()
+  | _ => ret ()
+
+/-- `try: m  except KeyboardInterrupt: raise  except BaseException as e: h e` -/
+def tryAllButKI {α} (m : M α) (h : Exc → M α) : M α := fun s =>
+  match m s with
+  | (.ok a, s') => (.ok a, s')
+  | (.error e, s') => if e.cls = .keyboardInterrupt then (.error e, s') else h e s'
+
+/-- the three nested fallbacks of `_safeFormat` -/
+def safeFormatFallback (ev : Event) : M Text :=
+  tryAll
+    (do
+      reprFormat ev              -- "… %r, %s" % (fmtString, fmtDict)
+      reprAll ev.values
+      ret invalidMark)
+    (fun _ =>
+      tryAll
+        (do
+          reprFormat ev          -- "… %r …" % (fmtString,)
+          ret lostFmtMark)
+        (fun _ => ret pathological))
+
+def safeFormat (ev : Event) : M Text :=
+  tryAllButKI (percentFormat ev) (fun _ => safeFormatFallback ev)
+
+/-- `why = eventDict.get("why"); if why: why = safe_str(why) else: why = "Unhandled Error"` -/
+def whyText : Option Val → M Text
+  | none | some .none => ret unhandled
+  | some (.text t) => if t.isEmpty then ret unhandled else ret t
+  | some .hostile => safeStrVal .hostile
+
+/-- the guarded `eventDict["failure"].getTraceback()` with its "is it text" test -/
+def legacyTraceback (f : Val) : M Text :=
+  tryAll
+    (do
+      match ← getTraceback f with
+      | .text t => ret t
+      | .none => raise (plainExc .typeError (nonTextTb "NoneType"))
+      | .hostile => raise (plainExc .typeError (nonTextTb "H")))
+    (fun e => do
+      let t ← safeStrExc e
+      ret (unableLegacyTb ++ t))
+
+def textFromEventDict (ev : Event) : M (Option Text) :=
+  match ev.message with
+  | [] =>
+    match ev.isError, ev.failure with
+    | true, some f => do
+      let why ← whyText ev.why
+      let tb ← legacyTraceback f
+      ret (some (why ++ '\n' :: tb))
+    | _, _ =>
+      match ev.format with
+      | .absent => ret none              -- "We don't know how to log this"
+      | _ => do
+        let t ← safeFormat ev
+        ret (some t)
+  | m :: ms => do
+    let ts ← safeStrAll (m :: ms)
+    ret (some (joinSpace ts))
+
+end Legacy
 
 end Twisted.Log.Format
